@@ -85,13 +85,66 @@ class _Simp(ast.NodeTransformer):
 def _simplify(e):
     if e is None:
         return None
-    return _Simp().visit(e)
+    e = _Simp().visit(e)
+    # substitution of locals can expose idioms (a generator pipeline, any(v == x ..)) that the expression normaliser removes
+    if any(isinstance(n, (ast.GeneratorExp, ast.ListComp, ast.SetComp, ast.DictComp)) for n in ast.walk(e)):
+        from .canon import _BoundVars, _ExprNorm
+        e = _BoundVars().visit(_ExprNorm().visit(copy.deepcopy(e)))
+    return e
+
+
+class _Fwd(ast.NodeTransformer):
+    """store-to-load forwarding: after `self.signature = signature` a read of self.signature is the value stored (keys '@<path>',
+    recorded only for stored references / constants and dropped at the next call that could rebind the attribute)"""
+    def __init__(self, env):
+        self.m = {k[1:]: v for k, v in env.items() if k.startswith("@")}
+
+    def visit_Attribute(self, node):
+        if isinstance(node.ctx, ast.Load) and self.m:
+            t = u(node)
+            if t in self.m:
+                # the stored value is already expressed over entry values: protect it from the substitution of locals
+                return ast.Call(func=ast.Name(id="fwd_", ctx=ast.Load()), args=[copy.deepcopy(self.m[t])], keywords=[])
+        return self.generic_visit(node)
+
+
+    def visit_Call(self, node):
+        if isinstance(node.func, ast.Name) and node.func.id in ("old_", "fwd_"):
+            return node             # a value of an earlier moment
+        return self.generic_visit(node)
+
+
+class _S(norm._Subst):
+    def visit_Call(self, node):
+        if isinstance(node.func, ast.Name) and node.func.id == "fwd_" and len(node.args) == 1:
+            return node.args[0]
+        return self.generic_visit(node)
 
 
 def _subst(e, env):
+    """the statement's own attribute reads are forwarded first (they see the latest store), then its locals are replaced by
+    their values (which were forwarded when they were bound)"""
     if e is None:
         return None
-    return norm._Subst(dict(env)).visit(copy.deepcopy(e))
+    e = copy.deepcopy(e)
+    if any(k.startswith("@") for k in env):
+        e = _Fwd(env).visit(e)
+    return _S({k: v for k, v in env.items() if not k.startswith("@")}).visit(e)
+
+
+def _drop_forwards(env, stmt) -> None:
+    """a call that is not known to be read-only may rebind any attribute; a store to <x>.a ends what is known about every *.a"""
+    keys = [k for k in env if k.startswith("@")]
+    if not keys:
+        return
+    if not isinstance(stmt, (ast.Assign, ast.AnnAssign, ast.AugAssign, ast.Expr, ast.Delete, ast.Assert, ast.Return)) or not norm.is_pure(stmt, _PURE):
+        for k in keys:
+            del env[k]
+        return
+    stored = {n.attr for n in ast.walk(stmt) if isinstance(n, ast.Attribute) and isinstance(n.ctx, (ast.Store, ast.Del))}
+    for k in keys:
+        if k.rsplit(".", 1)[-1] in stored:
+            del env[k]
 
 
 _fresh = [0]
@@ -119,13 +172,21 @@ def _split_walrus(e, env):
                 return copy.deepcopy(env[node.id])
             return node
 
+        def visit_Call(self, node):
+            if isinstance(node.func, ast.Name) and node.func.id == "fwd_" and len(node.args) == 1:
+                return node.args[0]
+            return self.generic_visit(node)
+
         def visit_Lambda(self, node):
             return node
 
         def _comp(self, node):
             return _subst(node, env)
         visit_ListComp = visit_SetComp = visit_DictComp = visit_GeneratorExp = _comp
-    return W().visit(copy.deepcopy(e))
+    e = copy.deepcopy(e)
+    if any(k.startswith("@") for k in env):
+        e = _Fwd(env).visit(e)
+    return W().visit(e)
 
 
 class Summariser:
@@ -401,8 +462,13 @@ class Summariser:
                     self._bind(a, ast.Subscript(value=copy.deepcopy(v), slice=ast.Constant(idx), ctx=ast.Load()), q, s)
             return
         # attribute / subscript store: an effect
-        q.effects.append(ast.copy_location(ast.Assign(targets=[_subst(t, q.env)], value=copy.deepcopy(v)), s))
+        tt = _subst(t, q.env)
+        q.effects.append(ast.copy_location(ast.Assign(targets=[tt], value=copy.deepcopy(v)), s))
         _freeze(q.env, s)
+        if isinstance(tt, ast.Attribute) and norm._attr_chain(tt) is not None and \
+                ((norm.is_reference(v) and not any(isinstance(n, ast.Subscript) for n in ast.walk(v))) or
+                 (isinstance(v, ast.Constant) and not isinstance(v.value, (bytes,)))):
+            q.env["@" + u(tt)] = copy.deepcopy(v)
 
 
 class _Pure:
@@ -468,6 +534,11 @@ def _mutated_names(stmts) -> set[str]:
 
 
 def _freeze(env: dict, stmt: ast.AST, inplace: str | None = None) -> None:
+    _drop_forwards(env, stmt)
+    _freeze1(env, stmt, inplace)
+
+
+def _freeze1(env: dict, stmt: ast.AST, inplace: str | None = None) -> None:
     """after an effect that mutates a container / attribute, bindings computed from it denote the value *before* the
     effect: wrap them in old_(..) so that they are not confused with the same expression evaluated afterwards.
     `stmt` is the ORIGINAL statement (calls that only appear through substituted temporaries are not new effects);
@@ -489,6 +560,8 @@ def _freeze(env: dict, stmt: ast.AST, inplace: str | None = None) -> None:
     if not attrs and not bases:
         return
     for k, v in list(env.items()):
+        if k.startswith("@"):
+            continue
         if isinstance(v, ast.Call) and u(v.func) == "old_":
             continue
         if inplace is not None and u(v) == inplace:
